@@ -4,6 +4,7 @@ package main
 
 import (
 	"go/token"
+	"go/types"
 
 	"golang.org/x/tools/go/ssa"
 )
@@ -162,9 +163,42 @@ func decodeCond(v ssa.Value) Cond {
 		if isConst(x) && !isConst(y) {
 			x, y = y, x
 		}
+		/* v == true / v != false (also for named boolean types, e.g.
+		s.mode == justOne): a plain boolean test of v. */
+		if yb, ok := constBool(y); ok && !isConst(x) {
+			inner := decodeCond(stripBoolConv(x))
+			if eq != yb {
+				inner.Eq = !inner.Eq
+			}
+			return inner
+		}
 		return Cond{X: x, Y: y, Eq: eq}
 	}
-	return Cond{X: v, Y: nil, Eq: !neg}
+	return Cond{X: stripBoolConv(v), Y: nil, Eq: !neg}
+}
+
+// stripBoolConv removes conversions between boolean types.
+func stripBoolConv(v ssa.Value) ssa.Value {
+	for {
+		switch x := v.(type) {
+		case *ssa.ChangeType:
+			if isBoolType(x.Type()) && isBoolType(x.X.Type()) {
+				v = x.X
+				continue
+			}
+		case *ssa.Convert:
+			if isBoolType(x.Type()) && isBoolType(x.X.Type()) {
+				v = x.X
+				continue
+			}
+		}
+		return v
+	}
+}
+
+func isBoolType(t types.Type) bool {
+	b, ok := t.Underlying().(*types.Basic)
+	return ok && 0 != b.Info()&types.IsBoolean
 }
 
 // ifsTesting returns the If instructions of fn whose condition compares v
